@@ -156,6 +156,24 @@ theorem C10_filter_iterate_both_row (ashape fshape : List Nat) (hpos : ∀ d ∈
   refine ⟨h1, h2, by omega, ?_⟩
   rw [h2]; unfold tableRow; omega
 
+/-- **B1, the row in use at `p` was filled at `repPos p` (F6, model level).** Transliterating the
+position odometer of `init_filter_offsets` ("move to the next array region", all axes, with the wrap
+to 0 when `position[ii] >= ashape[ii]`): while row number `tableRow p` of the table is filled,
+`position[]` equals `repPos p`. Together with `C10_filter_iterate_both_row` (the pointer is at row
+`tableRow p` when the array iterator is at `p`) and `C10_filter_region_offset_valid` (offsets computed
+at `repPos p` are valid at `p`): every offset a filter iterator retrieves, added to the array
+iterator's pointer, addresses an element of the array — for every mode, rank, array shape (axes ≥ 1),
+filter shape (axes ≥ 1: smaller, equal, larger, even, odd) and any integer strides. -/
+theorem C10_filter_iterator_refines (m : Mode) (ashape fshape : List Nat) (strides : List Int)
+    (hf : ∀ f ∈ fshape, 0 < f) (hlen : fshape.length = ashape.length)
+    (hs : strides.length = ashape.length) (p k : List Int) (hp : inside ashape p = true)
+    (hk : inside fshape k = true) :
+    ∃ pos, fillPos ashape fshape (tableRow ashape fshape p) = some pos ∧
+      ∀ off, tableOffset m ashape strides fshape pos k = some off →
+        ∃ q, inside ashape q = true ∧ dot strides p + off = dot strides q :=
+  ⟨repPos ashape fshape p, fillPos_tableRow ashape fshape p hf hlen hp,
+    (C10_filter_region_offset_valid m ashape fshape strides p k hs hlen hp hk).2⟩
+
 /-! non-vacuity (B1): a 1-D array of 3 elements, a filter of 5 (larger than the array), `reflect`:
     15 reads, none flagged, all in range; with `constant` the out-of-array ones are the flag. -/
 example : filterIdx .reflect [3] [5] = [1, 0, 0, 1, 2, 0, 0, 1, 2, 2, 0, 1, 2, 2, 1] := by decide
@@ -164,7 +182,8 @@ example : filterIdx .constant [2, 2] [1, 3] =
 example : tableOffset .nearest [2, 3] [1, 2] [3, 3] [0, 2] [2, 2] = some 1 := by decide
 example : (List.range 7).map (fun p => regionPos 7 3 (regionIndex 7 3 p)) = [0, 1, 1, 1, 1, 1, 6] ∧
     repPos [7, 3] [3, 5] [4, 1] = [1, 1] ∧ tableRow [7, 3] [3, 5] [6, 2] = 8 ∧
-    shapeSize (minShape [7, 3] [3, 5]) = 9 ∧ scanState [7, 3] [3, 5] 20 = some ([6, 2], 8) := by decide
+    shapeSize (minShape [7, 3] [3, 5]) = 9 ∧ scanState [7, 3] [3, 5] 20 = some ([6, 2], 8) ∧
+    fillPos [7, 3] [3, 5] 8 = some [6, 2] ∧ fillPos [7, 3] [3, 5] 4 = some [1, 1] := by decide
 
 /-! ## B2 — `fast_binary_dilate_erode_2d` -/
 
